@@ -59,7 +59,7 @@ Conts(W) == IF W = 32 THEN {128, 129, 255} ELSE {128, 255}
 Terms == {0, 1, 15, 16, 127}
 RECURSIVE SeqsOver(_, _)
 SeqsOver(S, n) == IF n = 0 THEN {<<>>} ELSE {Append(s, x) : s \in SeqsOver(S, n - 1), x \in S}
-Structures(W) == UNION {{pre \o t \o g : pre \in SeqsOver(Conts(W), j), t \in {<<>>} \cup {<<x>> : x \in Terms}, g \in {<<>>, <<170>>}} : j \in 0..MaxLen(W)}
+Structures(W) == UNION {{pre \o t \o g : pre \in SeqsOver(Conts(W), j), t \in {<<>>} \cup {<<x>> : x \in Terms}, g \in {<<>>, <<170>>, <<170, 0, 255, 1>>, <<128, 128, 128, 128, 128, 128, 128, 128, 1>>}} : j \in 0..MaxLen(W)}
 
 \* ---- cases
 EncCases(W) == {[kind |-> "enc", w |-> W, bits |-> b, varint |-> VarintEnc(b), uvarint |-> UvarintEnc(b), be |-> BigEndian(b)] : b \in Boundary(W)}
